@@ -30,7 +30,7 @@ CLAIMED = {
  "C10": ("composition: ServeHTTP explored once per outcome class of the real Update (witness call answered by the class, helpers inlined) against the protocol status table",
          "Decides the endpoint's verdict-to-status mapping composed with the real Update's outcome classes whatever way the handler is split or the table is written (switch, map, helper structs), limiter-first, exactly one documented constant status per path, 200 only for a committed, freshly cosigned checkpoint and with a body built from signatures verified under the witness key, stale 409 with the decimal current size, the pre-checks, strict decimal old size, metric labels free of request bytes, witness bytes never written through. Transport, crypto validity of the cosignature and the limiter's rate are not decided.", "5/C10"),
  "C11": ("sibling agreement (writer vs reader) over path summaries + refusal-totality + disallowed-call query",
-         "Narrow structural claim (level other): same base64 object/terminator/prefix in writers and readers, error returns carry nothing else, success only after the blank separator, strict whole-string integer parsing, order-preserving element construction, an ownership rule (a bufio ReadLine view is never retained un-copied), unbounded line split. Round-trip equality of values is not decided (O1).", "5/C11"),
+         "Narrow structural claim (level other): same base64 object/terminator/prefix in writers and readers, error returns carry nothing else, success only after the blank separator, strict whole-string integer parsing, order-preserving element construction, an ownership rule (a bufio ReadLine view is never retained un-copied), unbounded line split, and the reader's framing conditions decided on the writer's output templates for 0/1/2 hashes (reported F7, fixed). Round-trip equality of values is not decided.", "5/C11"),
  "C13": ("provenance analysis over the path summaries of FeedOnce with the retried operation inlined (captured variables it assigns are carried-over unknowns)",
          "Decides verify-before-submit, anchoring of old size and proof to the witness's latest of the same attempt (nothing is reused from an earlier attempt), never-when-ahead, retry bound to the context, result pass-through, adapter mapping, no leaked transaction behind the witness. Retry convergence and timing are not decided. Also: fetch functions make their network calls under the context they are called with, and no closure built in FeedLog captures FeedLog's own context.", "5/C13"),
  "C15": ("provenance + implied-fact (zone) analysis over the path summaries of distributeForLog/DistributeOnce + Main wiring",
